@@ -17,7 +17,7 @@ _T = "SE.Proofs.C08."
 THEOREMS = [_T + n for n in [
     "C08_clips", "C08_clips_pairs", "C08_cover", "C08_index_faithful", "C08_index_faithful_annotations",
     "C08_pairs_overlap_report_affinity_score", "C08_unpaired_zero", "C08_geometryless_unpaired",
-    "C08_matcher_contract_checked", "C08_holds_cover_sound", "C08_holds_cover_model", "C08_clip_score_is_mean", "C08_means", "C08_scores_in_range", "C08_empty"]]
+    "C08_matcher_contract_checked", "C08_contract_from_C07", "C08_holds_cover_sound", "C08_holds_cover_model", "C08_clip_score_is_mean", "C08_means", "C08_scores_in_range", "C08_empty"]]
 LEVEL_TEXT = ("Lean theorems over the model of evaluate_clip / sound_event_detection hold for all inputs: evaluated clips = "
               "predictions whose clip id is annotated, in order; under the matcher's cover contract every annotated and "
               "predicted sound event (with or without geometry) is in exactly one match; the filtered->original index map is "
